@@ -69,11 +69,14 @@ class Partial:
         return r, (s.model() if r == "sat" else None)
 
     def canary(self, fired):
+        """Vacuity guard.  A single canary may legitimately stay silent in a corner case (e.g. the
+        weakened formula is still unsatisfiable for that instance); the run is declared broken only
+        if canaries were attempted and *none* fired (see finish)."""
         self.canaries_run += 1
         if fired:
             self.canaries_fired += 1
         else:
-            self.errors.append("canary did not fire (vacuous harness?)")
+            self.note("a canary stayed silent (counted in canaries.run/fired)")
 
     def violation(self, key, what, replay_src):
         self.violations.append({"key": key, "what": what, "replay": replay_src})
@@ -219,6 +222,8 @@ class Report(Partial):
                 f"HARNESS-ERROR property={self.pid}: counterexample {v['key']} did not "
                 f"reproduce (rc={v['replay_rc']}): {v['what']}\n{v.get('replay_out','')}"
             )
+        if self.canaries_run > 0 and self.canaries_fired == 0:
+            self.errors.append("no canary fired: the harness may be vacuous")
         for e in self.errors:
             print(f"HARNESS-ERROR property={self.pid}: {e}")
         decided = self.queries["unsat"] + self.queries["sat"]
